@@ -157,7 +157,7 @@ func genCase(t *rapid.T) Case {
 	return Case{Pair: i, Input: in}
 }
 
-var prop = &ev.Prop[Case]{Sub: "parsers", Quick: 150000, Thorough: 6000000, Gen: genCase, Check: check}
+var prop = &ev.Prop[Case]{Sub: "parsers", Quick: 500000, Thorough: 6000000, Gen: genCase, Check: check}
 
 // ---------------------------------------------------------------------------
 // builder twins
@@ -324,7 +324,7 @@ func genBuild(t *rapid.T) BuildCase {
 	return c
 }
 
-var propBuild = &ev.Prop[BuildCase]{Sub: "builders", Quick: 40000, Thorough: 2000000, Gen: genBuild, Check: checkBuild}
+var propBuild = &ev.Prop[BuildCase]{Sub: "builders", Quick: 120000, Thorough: 2000000, Gen: genBuild, Check: checkBuild}
 
 func TestRegress(t *testing.T)      { prop.Regress(t); propBuild.Regress(t) }
 func TestReplay(t *testing.T)       { _ = prop.Replay(t) || propBuild.Replay(t) }
